@@ -29,6 +29,10 @@ def run(chk):
     trap(chk, prog, names)
     served(chk, prog, names)
     loader(chk, prog, names)
+    # block framing / window invariant of the TAP reader (shared rule, rules/tapeinv.py)
+    from . import tapeinv
+    chk.rule("T-INV", "Tap window invariant: inductive over every writer and every exit; asserts and bounds implied; headers read only at block ends")
+    tapeinv.run(chk, prog)
     return chk.finish(EXPL)
 
 
